@@ -228,8 +228,13 @@ def Schema.structOK (S : Schema) (d : StructDef) : Bool :=
   else S.reflOK d.fields
 
 /-- THE structural condition of C01. -/
+def Schema.fieldEncOK (S : Schema) (f : Field) : Bool :=
+  (!f.omitempty || f.kind.zeroFaithful) && (!f.setVersion || S.plainKind f.kind)
+    && (!f.dynTag || f.kind == .iface)
+
 def Schema.unambiguous (S : Schema) : Bool :=
   S.structs.all S.structOK && S.dyns.all S.dynOK
+    && S.structs.all (fun d => d.fields.all S.fieldEncOK)
     -- an object travels under its own default tag, right after an attribute list (Export, Import)
     && S.objects.all (fun p => (S.dyn p.2).defTag != T.attr)
 
